@@ -144,20 +144,34 @@ impl<'a> Speller<'a> {
                 }
             }
         }
-        // keep only the spellings the specification's number denotes as exactly `x` when read the way
-        // every IEEE reader does (decimal string -> nearest double)
+        if allow_exp && x != 0.0 && x.is_finite() {
+            // the same digits with the point moved and the exponent adjusted (`780.5771e-6` for `7.805771e-4`): long
+            // decimal parts WITH an exponent, which a reader that rounds the decimal part first gets wrong by one ulp
+            let sci = format!("{x:e}");
+            if let Some((m, k)) = sci.split_once('e') {
+                if let Ok(k) = k.parse::<i32>() {
+                    let neg = m.starts_with('-');
+                    let digits: String = m.chars().filter(|c| c.is_ascii_digit()).collect();
+                    for shift in [1usize, 2, 3, 5] {
+                        // point after `1 + shift` digits (padded with zeros), exponent lowered by `shift`
+                        let mut d = digits.clone();
+                        while d.len() < 1 + shift {
+                            d.push('0');
+                        }
+                        let (a, b) = d.split_at(1 + shift);
+                        let mant = if b.is_empty() { a.to_string() } else { format!("{a}.{b}") };
+                        cands.push(format!("{}{mant}e{}", if neg { "-" } else { "" }, k - shift as i32));
+                    }
+                    // point moved to the left: `0.07805771e-2`
+                    cands.push(format!("{}0.0{digits}e{}", if neg { "-" } else { "" }, k + 2));
+                }
+            }
+        }
+        // keep only the spellings that denote exactly `x` when read the way every IEEE reader does
+        // (decimal string -> nearest double)
         let ok: Vec<String> = cands
             .into_iter()
-            .filter(|c| {
-                // the decoder evaluates "<decimal>e<exp>" after printing the decimal part as a double:
-                // choose spellings for which both routes agree with x
-                let direct = c.parse::<f64>().ok();
-                let two_step = match c.find(|ch| ch == 'e' || ch == 'E') {
-                    Some(i) => c[..i].parse::<f64>().ok().and_then(|d| format!("{d}e{}", &c[i + 1..].trim_start_matches('+')).parse::<f64>().ok()),
-                    None => direct,
-                };
-                direct == Some(x) && two_step == Some(x) && direct.map(|d| d.to_bits()) == Some(x.to_bits())
-            })
+            .filter(|c| c.parse::<f64>().ok().map(|d| d.to_bits()) == Some(x.to_bits()))
             .collect();
         let pick = if ok.is_empty() { canon } else { self.rng.pick(&ok).clone() };
         if self.rng.chance(1, 3) {
